@@ -55,6 +55,8 @@ def worst_pa(vals):
   ps = [pa(x) for v in vals for x in _all(v)]
   if all(p == 'E' for p in ps):
     return 'E'
+  if 'B' in ps or ('S', 'mix') in ps:
+    return 'B'          # slots of different pairs were combined: sticky
   return 'X'
 
 
@@ -171,6 +173,8 @@ class EqvDomain(EventsMixin, Domain):
     elif isinstance(op, ast.Pow) and pl == 'O' and pr == 'E':
       c = r.const()
       p = 'E' if isinstance(c, int) and c % 2 == 0 else 'X'
+    elif 'B' in (pl, pr) or ('S', 'mix') in (pl, pr):
+      p = 'B'
     elif isinstance(pl, tuple) and isinstance(pr, tuple):
       p = ('S', 'mix')     # slots of different pairs combined
     elif isinstance(pl, tuple) and pr == 'E':
@@ -308,7 +312,7 @@ class EqvDomain(EventsMixin, Domain):
     elif {pa_, pb} == {'O', 'E'}:
       p = 'O'
     else:
-      p = 'X'
+      p = worst_pa([a, b])
     return (t, p)
 
   def _key(self, v, node, pos):
@@ -539,8 +543,65 @@ class EqvDomain(EventsMixin, Domain):
           'Dep' if 'Dep' in ts else 'Unk' if 'Unk' in ts else 'Dep')
       if all(x == 'E' for x in ps):
         p = 'E'
-      elif any(x == 'O' or isinstance(x, tuple) for x in ps):
+      elif any(x in ('O', 'B') or isinstance(x, tuple) for x in ps):
         p = 'O'          # an odd / slot-specific quantity reaches the sink
       else:
         p = 'X'          # not derivable
       self.sinks.append((attr, t, p, self.site(node)))
+
+
+def _has_b(vals):
+  for v in vals:
+    for x in _all(v):
+      if pa(x) in ('B', ('S', 'mix')):
+        return True
+  return False
+
+
+def _fix(res, vals):
+  """cross-pair slot mixing is sticky through every operation"""
+  if not _has_b(vals):
+    return res
+  if isinstance(res, V):
+    if res.d is not None and res.d[1] in ('X', 'E', 'O'):
+      return res.with_(d=(res.d[0], 'B'))
+    return res
+  if isinstance(res, tuple) and len(res) == 2 and res[1] in ('X', 'E', 'O'):
+    return (res[0], 'B')
+  return res
+
+
+class StickyEqvDomain(EqvDomain):
+  def binop(self, op, l, r, node, st):
+    return _fix(EqvDomain.binop(self, op, l, r, node, st), [l, r])
+
+  def unop(self, op, v, node, st):
+    return _fix(EqvDomain.unop(self, op, v, node, st), [v])
+
+  def compare(self, ops, vals, node, st):
+    return _fix(EqvDomain.compare(self, ops, vals, node, st), vals)
+
+  def attr(self, v, name, node, st):
+    return _fix(EqvDomain.attr(self, v, name, node, st), [v])
+
+  def subscript(self, v, idx, node, st):
+    return _fix(EqvDomain.subscript(self, v, idx, node, st), [v])
+
+  def iter_elem(self, v, node, st):
+    return _fix(EqvDomain.iter_elem(self, v, node, st), [v])
+
+  def unpack(self, v, n, node, st):
+    return [_fix(x, [v]) for x in EqvDomain.unpack(self, v, n, node, st)]
+
+  def ext_call(self, dotted, args, kwargs, node, st, eng):
+    return _fix(EqvDomain.ext_call(self, dotted, args, kwargs, node, st, eng),
+                list(args) + list(kwargs.values()))
+
+  def method_call(self, recv, name, args, kwargs, node, st, eng):
+    return _fix(EqvDomain.method_call(self, recv, name, args, kwargs, node,
+                                      st, eng),
+                [recv] + list(args) + list(kwargs.values()))
+
+  def on_augassign(self, kind, target, op, val, node, st):
+    return _fix(EqvDomain.on_augassign(self, kind, target, op, val, node, st),
+                [target, val])
